@@ -443,6 +443,12 @@ def eval_compare(opcode: str, lhs: ValueRange, rhs: ValueRange) -> ValueRange:
 
     is_signed = opcode in {"slt", "sgt"}
 
+    # Ranges extending above SIGNED_MAX contain words that are negative in
+    # the signed interpretation, so signed reasoning on the raw bounds below
+    # would be unsound.
+    if is_signed and (lhs.hi > SIGNED_MAX or rhs.hi > SIGNED_MAX):
+        return ValueRange.bool_range()
+
     # For unsigned comparisons, if either range spans the sign boundary,
     # we cannot make definitive conclusions because negative values in
     # signed representation are large positive values in unsigned.
